@@ -141,6 +141,17 @@ def scenarios(rng: random.Random, tier: str):
     for extra in ("", " | ans 0 0 2001"):
         during = cfg.replace("NODE ", "NODE during=ans_0_0_2001;", 1)
         out.append(during + " | start | acc | rx 0 " + nodegen.cer("peer1.x", "4", n(), n()) + f" | rx 0 {nodegen.ccr(n(), n(), 'peer1.x')}{extra} | tick")
+    # nothing is lost: the requester is merely silent for longer than the idle timeout while the application is still busy
+    # (the node's watchdog request goes out, the connection awaits the DWA), then the answer is submitted
+    slow_cfg = cfg.replace("idle=9999", "idle=3;dwa=50")
+    for late in ("", " | rx 0 " + nodegen.dwa(2001, 268435464)):
+        out.append(slow_cfg + " | start | acc | rx 0 " + nodegen.cer("peer1.x", "4", n(), n()) + f" | rx 0 {nodegen.ccr(n(), n(), 'peer1.x')}" +
+                   f" | adv 4{late} | ans 0 0 2001 | ans 0 0 2001")
+    # the requester opens a second connection and completes its capabilities exchange there while the first one, on which its
+    # request is pending, stays open: the answer goes out on the first
+    for extra in ("", " | rx 1 " + nodegen.dwr(n(), n(), "peer1.x")):
+        out.append(cfg + " | start | acc | rx 0 " + nodegen.cer("peer1.x", "4", n(), n()) + f" | rx 0 {nodegen.ccr(n(), n(), 'peer1.x')}" +
+                   " | acc | rx 1 " + nodegen.cer("peer1.x", "4", n(), n()) + f"{extra} | ans 0 0 2001 | ans 0 0 2001")
     # the node sends a request of its own (watchdog, application request) on the connection, numbered like the peer's
     # pending request: the two number spaces have nothing to do with each other
     idle_cfg = cfg.replace("idle=9999", "idle=5;dwa=30")
